@@ -22,8 +22,8 @@
 (* Delegate, a Redelegate whose final power suffices, a lock set by        *)
 (* another module) both outcomes are allowed and the trace binds them.     *)
 (* Amounts are true integers.  Values near 2^63/2^64 are represented as    *)
-(* hi * HM + lo (HM = 1000000) by the driver, real value hi * 2^63 + lo;   *)
-(* U64Lim (= 2 * HM) stands for 2^64.                                      *)
+(* hi * HM + lo (HM = 1000000, |lo| < HM/2) by the driver, real value      *)
+(* hi * 2^63 + lo; U64Lim (= 2 * HM) stands for 2^64.                      *)
 (***************************************************************************)
 EXTENDS Integers, Sequences, FiniteSets, TLC
 
